@@ -1,3 +1,5 @@
 import YV.Base.SF64
 import YV.Model.XEval
+import YV.Model.XLex
+import YV.Model.XParse
 import YV.Spec.XSem
